@@ -155,6 +155,11 @@ class CoordinationSystem:
                 duration_ms=duration_ms,
             )
 
+        except BaseException:
+            # KeyboardInterrupt, SystemExit, asyncio.CancelledError: release everything, then let it propagate
+            self.controller.abort_operation(ctx, reason="interrupted")
+            raise
+
     def run_maintenance(self) -> dict:
         """
         Run periodic maintenance tasks.
